@@ -69,6 +69,10 @@ OTHER_RULES = {
     "C16": [
         ("file-channel-translates-crlf", lambda s, d: "crlf" in s),
     ],
+    "C20": [
+        ("exponential-inherit-source-preview", lambda s, d: "inherit" in s),
+        ("exponential-with-body-preview", lambda s, d: "with" in s),
+    ],
     "C13": [
         ("negative-number-in-list", lambda s, d: "[ -" in d or " -" in d and "[" in d),
         ("float-exponent-form", lambda s, d: "e+" in d or "e-" in d),
@@ -83,6 +87,8 @@ OTHER_META = {
     "keyword-written-bare": ("Nix keywords are accepted as bare path segments and written bare (`{ if = 1; }`), which is not valid Nix", "cli/manipulations.py:_format_attr_name only checks the identifier regex"),
     "quoted-vs-bare-name": ("bare and quoted spellings of the same name are different keys: duplicate definitions / KeyError on rm", "cli/manipulations.py:_find_binding/_find_named_binding compare the rendered spelling, not the decoded name"),
     "file-channel-translates-crlf": ("`-f FILE` reads with universal-newline translation while stdin does not: a CRLF file is reported OK by `nima test -f` and Fail through stdin", "cli/parser.py: argparse.FileType('r') opens in text mode with newline=None"),
+    "exponential-inherit-source-preview": ("nested `inherit (src) …;` sources are rendered twice per level (preview, then real pass): 2^n rebuild calls", "inherit.py:Inherit.rebuild renders from_expression once as `source_preview` and again for the output"),
+    "exponential-with-body-preview": ("`with e; with f; … <multi-line body>` renders every body twice per level", "with_statement.py:WithStatement.rebuild renders the body inline first and, if that contains a newline, again in multi-line mode"),
     "negative-number-in-list": ("negative numbers are rendered bare inside lists (`[ -1 ]`), a syntax error", "list.py:NixList.rebuild does not parenthesise unary minus"),
     "float-exponent-form": ("floats whose repr uses an exponent render as `1e-07` / `1e+16`, which Nix reads as something else", "expression.py:coerce_expression uses repr(value)"),
 }
